@@ -193,6 +193,17 @@ PROPS["C14"] = dict(
     assumptions=COMMON_ASSUME,
 )
 
+PROPS["C07"] = dict(
+    title="configured peer authentication is enforced on every path",
+    level="exploration",
+    technique="end-to-end monitor: 'was anything routed?' observer at the origin vs. reference credential / certificate validity; argv log of the external command; verdict-cache history checker",
+    text="SOCKS: every offered-method set and order from {0,1,2,0x80,0xFF,...} x continuation (follow the selection, skip the sub-negotiation, force credentials) x credential class (listed user, wrong/empty password, wrong/empty user, command-accepted user, 255-byte, placeholder-bearing, non-UTF-8, NUL, case-changed) and SOCKS4 ids against a listener that requires credentials (user list + external command + 2 s verdict cache): nothing may reach the origin for a peer without valid credentials, valid ones must pass, the command's logged argv must be the template with the placeholders replaced literally, and every served cache verdict must equal the table's verdict at a command run for the identical (user, password) within the cache lifetime. TLS: listener {http, socks, quic} x client-cert policy {absent, optional, required} x presented {none, valid, foreign CA}; connectors {http, socks, quic} x insecure x CA {right, foreign, absent} x upstream certificate {valid, foreign CA, wrong name}: without insecure a tunnel exists only when the certificate chains to the configured CA and matches the server name.",
+    note="trusted: rustls/webpki chain building, python ssl client, the fixture auth command; QUIC clients are real redproxy quic connectors",
+    design_ref="DESIGN.md 3 C07",
+    steps=[e2e("c07")],
+    assumptions=COMMON_ASSUME,
+)
+
 NOT_YET = {}
 
 
